@@ -53,6 +53,11 @@ class GatherR:
         self.arr = arr
 
 
+class WaitR:
+    def __init__(self, arr):
+        self.arr = arr
+
+
 class SimsColl:
     def __init__(self, M):
         self.M = M
@@ -191,6 +196,9 @@ class RunModel:
         if isinstance(v, GatherR):
             it.p.ghost["gathers"] = it.p.ghost["gathers"] + [(v.arr, it.p.ghost["created"])]
             return Opaque("gather result")
+        if isinstance(v, WaitR):
+            it.p.ghost["waits"] = it.p.ghost.get("waits", []) + [v.arr]
+            return (Opaque("done"), Opaque("pending"))
         return NotImplemented
 
     @staticmethod
@@ -213,7 +221,13 @@ class RunModel:
                 if a or not isinstance(_star, JobList):
                     raise Unsupported("gather(...) of something other than one task list")
                 return GatherR(_star.arr)
-            return Namespace("asyncio", {"gather": Builtin("asyncio.gather", gather)})
+
+            def wait(it, node, lst, **kw):
+                # asyncio.wait completes without raising what the tasks raised: not a gather
+                if not isinstance(lst, JobList):
+                    raise Unsupported("wait(...) of something other than one task list")
+                return WaitR(lst.arr)
+            return Namespace("asyncio", {"gather": Builtin("asyncio.gather", gather), "wait": Builtin("asyncio.wait", wait)})
         return NotImplemented
 
 
@@ -310,7 +324,8 @@ class Run(Contract):
                "rt_factor_adjusted_to_time_resolution": (got is None) if adj is None else (is_z3(got) and got == adj)}
         gs = g["gathers"]
         if len(gs) != 2:
-            out["two_gathers"] = False
+            # (errors of the awaited jobs reach the caller through gather only)
+            out["setup_and_processes_each_awaited_by_one_gather"] = False
             return out
         (l0, c0), (l1, c1) = gs
         out["every_simulator_is_sent_setup_done_once_and_all_are_awaited_first"] = And(
@@ -330,6 +345,8 @@ class Run(Contract):
             for tr in (1.0, 0.25):
                 for n in (0, 1, 3):
                     yield {"rt_factor_arg": rt, "time_resolution_arg": tr, "nsims": n}
+        yield {"rt_factor_arg": None, "time_resolution_arg": 1.0, "nsims": 3, "setup_fails": 1}
+        yield {"rt_factor_arg": None, "time_resolution_arg": 1.0, "nsims": 3, "process_fails": 1}
 
     def native_call(self, m):
         if "nsims" not in m:
@@ -350,14 +367,18 @@ class Run(Contract):
             order.append("proc")
             for _ in range(3 * (n - int(sim.sid[2:]))):     # earlier simulators finish later
                 await asyncio.sleep(0)
+            if m.get("process_fails") == int(sim.sid[2:]):
+                raise ConnectionResetError(sim.sid)
             done.append(sim.sid)
         try:
             for i in range(n):
                 s = SimRunner(f"S-{i}", _StubProxy("hybrid"), depth=1)
                 s.tqdm = tqdm(disable=True)
 
-                async def sd(order=order):
+                async def sd(order=order, i=i):
                     await asyncio.sleep(0)
+                    if m.get("setup_fails") == i:
+                        raise ConnectionResetError(f"S-{i}")
                     order.append("setup")
                 s.setup_done = sd
                 w.sims[s.sid] = s
@@ -365,8 +386,14 @@ class Run(Contract):
             try:
                 w.loop.run_until_complete(scheduler.run(w, 7, rt, True, False))
                 err = None
-            except ValueError as e:
+            except (ValueError, ConnectionResetError) as e:
                 err = e
+            if "setup_fails" in m or "process_fails" in m:
+                ok = isinstance(err, ConnectionResetError) and ("setup_fails" not in m or "proc" not in order)
+                for t in asyncio.all_tasks(w.loop):
+                    t.cancel()
+                return ok, (f"run() with {n} simulators where {'setup_done' if 'setup_fails' in m else 'the process'} of S-1 fails with "
+                            f"ConnectionResetError: error reaching the caller: {err!r}, events {order}")
             must_raise = rt is not None and rt <= 0
             if must_raise or err is not None:
                 ok = must_raise and err is not None and not order
